@@ -1360,7 +1360,17 @@ SRef Logic::getSortRef(SymRef const sr) const {
 }
 
 std::string Logic::sortToString(SRef s) const {
-    return sort_store.sortToString(s);
+    // sort symbols declared by the user may need quoting, like function symbols
+    std::string name = protectName(sort_store.getSortSymName(s), false);
+    Sort const & sort = sort_store[s];
+    if (sort.getSize() > 0) {
+        name = "(" + name;
+        for (unsigned i = 0; i < sort.getSize(); i++) {
+            name += " " + sortToString(sort[i]);
+        }
+        name += ")";
+    }
+    return name;
 }
 
 SRef Logic::getUniqueArgSort(SymRef sr) const {
